@@ -266,3 +266,75 @@ func H_C12_GossipCompound() {
 	vAssert(!more, "c12.gossip.nothing-else")
 	vCover("c12.gossip")
 }
+
+// C12 during an encryption roll-out (the documented stages: install the key with GossipVerifyIncoming/Outgoing off,
+// then turn outgoing on, then incoming): a receiver that holds a key but does not insist on encryption, or holds
+// no key at all, still recovers every message of a sender that is at any compatible stage - also protocol
+// messages whose type byte (ping = 0, indirect ping = 1) looks like an encryption version and that are long enough
+// to pass for ciphertext.
+func H_C12_Transition() {
+	vOpt("enclen", []int{3, 48, 64}[vPick(3)]) // encoded size of the message body: short, and long enough to look sealed
+	key := vBytes(16)
+	sender := vPick(3)   // 0 no key, 1 key installed but still sending plaintext, 2 sealing
+	receiver := vPick(2) // 0 no key, 1 key installed, plaintext still accepted
+	vAssume(receiver == 1 || sender != 2)
+	ca, cb := vBaseConfig(), vBaseConfig()
+	cb.Name = vPeerA
+	label := string(vBytes(vPick(2)))
+	ca.Label, cb.Label = label, label
+	if sender >= 1 {
+		kr, _ := NewKeyring(nil, key)
+		ca.Keyring = kr
+		ca.GossipVerifyOutgoing = sender == 2
+	}
+	if receiver == 1 {
+		kr, _ := NewKeyring(nil, key)
+		cb.Keyring = kr
+		cb.GossipVerifyIncoming = false
+		cb.GossipVerifyOutgoing = vBool()
+	}
+	fa, fb := vNewML(ca), vNewML(cb)
+	fb.vAddSelfNamed(vPeerA)
+	fb.vAddConcreteAlive(vPeerB, 3)
+	to := Address{Addr: "10.0.0.2:7946", Name: vPeerA}
+	from := vAddr("10.0.0.1:7946")
+	peer := &Node{Name: vPeerA, Addr: []byte{10, 0, 0, 2}, Port: 7946, PMin: 1, PMax: []uint8{2, 5}[vPick(2)], PCur: 2}
+	kind := vPick(3)
+	var msg []byte
+	switch kind {
+	case 0:
+		b, err := encode(pingMsg, &ping{SeqNo: vU32(), Node: vPeerA, SourceAddr: []byte{10, 0, 0, 1}, SourcePort: 7946, SourceNode: vSelf}, false)
+		vAssert(err == nil, "c12.transition.encode")
+		msg = b.Bytes()
+	case 1:
+		b, err := encode(indirectPingMsg, &indirectPingReq{SeqNo: vU32(), Target: []byte{10, 0, 0, 3}, Port: 7946, Node: vPeerB, SourceAddr: []byte{10, 0, 0, 1}, SourcePort: 7946, SourceNode: vSelf}, false)
+		vAssert(err == nil, "c12.transition.encode")
+		msg = b.Bytes()
+	default:
+		msg = append([]byte{byte(userMsg)}, vBytes([]int{1, 60}[vPick(2)])...)
+	}
+	vAssert(fa.m.rawSendMsgPacket(to, peer, msg) == nil, "c12.transition.send-ok")
+	vAssert(len(fa.tr.packets) == 1, "c12.transition.one-packet")
+	if len(fa.tr.packets) != 1 {
+		return
+	}
+	fb.m.ingestPacket(fa.tr.packets[0], from, vNow())
+	switch kind {
+	case 0:
+		vAssert(len(fb.tr.packets) == 1, "c12.transition.ping-answered")
+		vCover("c12.transition.ping")
+	case 1:
+		vAssert(len(fb.tr.packets) == 1, "c12.transition.indirect-ping-relayed")
+		vCover("c12.transition.indirect")
+	default:
+		h, ok := fb.m.getNextMessage()
+		vAssert(ok, "c12.transition.user-delivered")
+		if ok {
+			vAssert(vEqBytes(h.buf, msg[1:]), "c12.transition.user-bytes")
+		}
+		vCover("c12.transition.user")
+	}
+	vAdvance(2 * time.Second) // the relay's own timers run out
+}
+
+func init() { vRegister("H_C12_Transition", H_C12_Transition) }
